@@ -93,3 +93,22 @@ package storage
 //@   at Append#1 before assert [C02.strictly_increasing] l.nextOffset > old(l.nextOffset)
 //@   at ShouldFlush#1 before assert [C02.result_offsets] result.BaseOffset == old(l.nextOffset) && result.LastOffset == old(l.nextOffset) + int64(old(batch.LastOffsetDelta)) && l.nextOffset == result.LastOffset + 1
 //@   at ShouldFlush#1 after stop
+//@
+//@ func (l *PartitionLog) uploadFlush
+//@   never_writes [C02.upload_never_moves_next_offset] PartitionLog.nextOffset
+//@   frame_only
+//@ func (l *PartitionLog) prepareFlush
+//@   never_writes [C02.prepare_never_moves_next_offset] PartitionLog.nextOffset
+//@   frame_only
+//@ func (l *PartitionLog) Flush
+//@   never_writes [C02.flush_never_moves_next_offset] PartitionLog.nextOffset
+//@   frame_only
+//@ func (l *PartitionLog) Read
+//@   never_writes [C02.read_never_moves_next_offset] PartitionLog.nextOffset
+//@   frame_only
+//@ func (l *PartitionLog) startPrefetch
+//@   never_writes [C02.prefetch_never_moves_next_offset] PartitionLog.nextOffset
+//@   frame_only
+//@ func BuildSegment
+//@   never_writes [C02.build_never_moves_next_offset] PartitionLog.nextOffset
+//@   frame_only
